@@ -19,17 +19,35 @@ STORE_ALGOS = ["MD5", "SHA-1", "SHA-256", "SHA-384", "SHA-512"]
 
 def c01_universe(tier, algorithm):
     # sizes 0, 1, blksize-1, blksize, blksize+1, 3*blksize with the model's block size 4
-    cs = [b"", b"x", b"abc", b"abcd", b"abcde", b"0123456789ab"]
+    cs = [b"", C_ONE, b"abc", b"abcd", b"abcde", C_MULTI]
     if tier != "thorough":
-        cs = [b"", b"abcd", b"abcde", b"0123456789ab"]
+        cs = [b"", b"abcd", b"abcde", C_MULTI]
     return dict(pids=["xb", "b"], contents=cs, formats=[None], algorithm=algorithm, fake_cid=False, sym_dirs=False)
+
+
+BIG = bytes((i * 7 + i // 251) % 256 for i in range(70001))
+
+
+def big_universe(algorithm="SHA-256"):
+    # a content of many buffers whose length is no multiple of any usual buffer size; files are read in 4096-byte
+    # blocks (st_blksize of the model), in-memory streams in the 8192-byte blocks the code chooses for them
+    return dict(pids=["xb", "b"], contents=[b"abcd", BIG], formats=[None], algorithm=algorithm, fake_cid=False,
+                sym_dirs=False, blksize=4096)
+
+
+def universe_of(tier, payload):
+    if payload.get("large"):
+        return big_universe(payload.get("algorithm", "SHA-256"))
+    return c01_universe(tier, payload.get("algorithm", "SHA-256"))
 
 
 def menu_fn(w):
     m = []
     for kind in KINDS:
         for k in range(w.NK):
-            m.append(step.StoreObj(0, k, kind=kind, offset=None if kind in ("stream", "bytesio") else 0,
+            n = len(w.contents[k])
+            off = None if n <= 64 else [0, 1, 4095, 4096, 8191, 8192, 8193, n - 4096, n - 1, n]
+            m.append(step.StoreObj(0, k, kind=kind, offset=off if kind in ("stream", "bytesio") else 0,
                                    tagname=", data=%s" % kind))
     for k in range(w.NK):
         m.append(step.StoreData(k))
@@ -76,7 +94,7 @@ class RecHash:
 
 def kernels(tier):
     nb, nbuf = (8, 9) if tier == "thorough" else (5, 6)
-    w = World(pids=["a"], contents=[b"x"], formats=[None], fake_cid=False)
+    w = World(pids=["a"], contents=[C_ONE], formats=[None], fake_cid=False)
     M = w.M
     M.hashlib = types.SimpleNamespace(new=lambda name, *a, **k: RecHash(name))
     base = w.F0.b
@@ -133,8 +151,7 @@ def kernels(tier):
 def main(tier, replay_payload=None):
     kf = lambda: kernels(tier)
     if replay_payload is not None:
-        a = c01_universe(tier, replay_payload.get("algorithm", "SHA-256"))
-        return make_replayer(a, menu_fn, kf)(replay_payload)
+        return make_replayer(universe_of(tier, replay_payload), menu_fn, kf)(replay_payload)
     run = report.Run("C01", tier, technique="CrossHair lemmas on Stream/_write_to_tmp_file (symbolic bytes, offset, "
                      "buffer size) + pathsym step: store_object for 4 data kinds x 5 algorithms, symbolic stream offset")
     ncalls = 0
@@ -146,14 +163,22 @@ def main(tier, replay_payload=None):
         collect(run, res, MINE, w_args, menu_fn)
         for sig in set(run.failures) - before:
             run.failures[sig]["payload"]["algorithm"] = algo
+    for algo in (STORE_ALGOS if tier == "thorough" else ["SHA-256", "MD5"]):
+        w_args = big_universe(algo)
+        before = set(run.failures)
+        collect(run, step.explore_steps(w_args, menu_fn), MINE, w_args, menu_fn)
+        for sig in set(run.failures) - before:
+            run.failures[sig]["payload"].update(algorithm=algo, large=True)
+
     def replayer(payload):
-        return make_replayer(c01_universe(tier, payload.get("algorithm", "SHA-256")), menu_fn, kf)(payload)
+        return make_replayer(universe_of(tier, payload), menu_fn, kf)(payload)
     run.replayer = replayer
     xh.run_kernels(run, "C01", kernels(tier))
     for f in loader.function_lines(loader.load(), API_FUNCS):
         if f not in run.functions:
             run.functions.append(f)
     run.bounds = dict(E1="content <= 5 (8) bytes, buffer 1..6 (1..9), every offset", E2_contents=[0, 1, 3, 4, 5, 12],
+                      E2_large_content="70001 bytes with 4096-byte file blocks / 8192-byte in-memory blocks",
                       block_size_in_model=4, data_kinds=KINDS, algorithms=STORE_ALGOS, calls_per_algorithm=ncalls,
                       stream_offset="symbolic, 0..len")
     run.explanation = ("E1: CrossHair explores every path of Stream.__iter__/close and of "
@@ -164,7 +189,7 @@ def main(tier, replay_payload=None):
                        "each kind of data argument (solver-chosen stream offset) under each of the five store "
                        "algorithms returns cid = hashlib digest and the true size, and retrieve_object returns the "
                        "bytes; calls on another pid leave the first pid's binding and object untouched (frame, by z3).")
-    run.outside = ["contents longer than 3 buffers (E2) / 8 bytes (E1)", "hashlib itself", "short reads of the OS"]
+    run.outside = ["contents other than the listed sizes (E2) / longer than 8 bytes (E1)", "hashlib itself", "short reads of the OS"]
     run.need("store through an in-memory buffered stream succeeded", any(
         "bytesio" in str(s_) for s_ in run.samples) or run.reach["ok"] > 0)
     return run.finish()
